@@ -52,6 +52,8 @@ ValCase(r) ==
                 /\ (IF IsOk(r.dec_u) /\ r.dec_u.ok = want THEN TRUE ELSE Bad("roundtrip_untyped")))
      ELSE /\ (IF IsErr(r.ann) THEN TRUE ELSE IF IsOk(r.ann) THEN Bad("annotate:accepts_illtyped:" \o Join(why, 1)) ELSE Bad("annotate:panic"))
           /\ (IF IsErr(r.enc) THEN TRUE ELSE IF IsOk(r.enc) THEN Bad("encode:accepts_illtyped:" \o Join(why, 1)) ELSE Bad("encode:panic"))
+\* the coercion has no finite derivation: a non-optional value at mu X. opt X (Coerce.HardV)
+IsHard(d) == ~d.ok /\ "hard" \in DOMAIN d /\ d.hard
 RECURSIVE Steps(_, _, _, _)
 \* step i decodes at ts[i+1] what was encoded at ts[i] (r.blobs[i])
 Steps(r, S, i, alive) ==
@@ -62,6 +64,7 @@ Steps(r, S, i, alive) ==
           THEN (IF i <= Len(r.steps) /\ IsOk(r.steps[i]) /\ Len(r.steps[i].ok) = 1 /\ HasType(r.env, r.steps[i].ok[1], r.ts[i+1], D)
                 THEN Steps(r, S, i + 1, TRUE)
                 ELSE IF i <= Len(r.steps) /\ IsOk(r.steps[i]) THEN Bad("chain:illtyped_result")
+                ELSE IF i <= Len(r.blobs) /\ IsHard(Decode(r.blobs[i], r.env, <<r.ts[i+1]>>)) THEN Bad("chain:accepted_but_decode_fails:mu_opt")
                 ELSE IF i <= Len(r.blobs) /\ ~Decode(r.blobs[i], r.env, <<r.ts[i+1]>>).ok /\ DecodeNR(r.blobs[i], r.env, <<r.ts[i+1]>>).ok
                      THEN Bad("chain:accepted_but_decode_fails:replace_empty")
                 ELSE Bad("chain:accepted_but_decode_fails"))
@@ -76,6 +79,7 @@ ChainCase(r) ==
      /\ (r.sub_direct = 1 =>
             IF IsOk(r.direct) /\ Len(r.direct.ok) = 1 /\ HasType(r.env, r.direct.ok[1], r.ts[n+1], D) THEN TRUE
             ELSE IF IsOk(r.direct) THEN Bad("chain:illtyped_result")
+            ELSE IF IsHard(d) THEN Bad("chain:accepted_but_decode_fails:mu_opt")
             ELSE IF ~d.ok /\ DecodeNR(r.blob, r.env, <<r.ts[n+1]>>).ok THEN Bad("chain:accepted_but_decode_fails:replace_empty")
             ELSE Bad("chain:accepted_but_decode_fails"))
      /\ (IF IsBomb(d) THEN TRUE ELSE IF d.ok THEN (IF IsOk(r.direct) /\ r.direct.ok = d.v THEN TRUE ELSE Bad("chain:direct_value")) ELSE (IF IsErr(r.direct) THEN TRUE ELSE Bad("chain:direct_value")))
